@@ -16,21 +16,15 @@ fn calculate_view_dimensions<T>(start: Coordinate, end: Coordinate, toodee: &imp
     assert!(end.0 <= toodee.num_cols());
     assert!(end.1 <= toodee.num_rows());
     assert!(stride >= toodee.num_cols());
-    let mut num_cols = end.0 - start.0;
-    let mut num_rows = end.1 - start.1;
-    // zero out dimensions for empty arrays
+    let num_cols = end.0 - start.0;
+    let num_rows = end.1 - start.1;
+    // zero out dimensions for empty arrays; an empty view has no position, and
+    // `start` may lie on the bottom/right edge where no cell exists
     if num_cols == 0 || num_rows == 0 {
-        num_cols = 0;
-        num_rows = 0;
+        return (0, 0, 0..0);
     }
     let data_start = start.1 * stride + start.0;
-    let data_len = {
-        if num_rows == 0 {
-            0
-        } else {
-            (num_rows - 1) * stride + num_cols
-        }
-    };
+    let data_len = (num_rows - 1) * stride + num_cols;
     (num_cols, num_rows, data_start..data_start + data_len)
 }
 
